@@ -125,9 +125,18 @@ fn configs() -> Vec<(String, Vec<String>, M)> {
                 if nb >= 2 {
                     m.bindings.insert("Y".into(), Tree::L(vec![Tree::I(2)]));
                 }
+
                 m.cfg.new_erc_name_probability = p;
                 out.push((format!("list={} bindings={} pnew={}", ln, nb, p), list.clone(), m));
             }
+        }
+        // a different set of bound names of the same size, then the first one again (new names disabled, so that
+        // every name leaf must be one of the CURRENT bindings)
+        for (tag, bound) in [("Z", "Z"), ("X-again", "X")] {
+            let mut m = M::default();
+            m.bindings.insert(bound.into(), Tree::I(3));
+            m.cfg.new_erc_name_probability = 0.0;
+            out.push((format!("list={} bindings={{{}}} pnew=0", ln, tag), list.clone(), m));
         }
     }
     out
